@@ -6,5 +6,6 @@ From Codec Require Script.
 From Topics Require Script.
 From Ackq Require Model.
 From Ring Require Seq LiveScript.
+From Proto Require Script.
 Extraction "model.ml" Codec.Script.run_codec Topics.Script.run_topics Ackq.Model.run_ackq Ring.Seq.run_ring
-  Ring.LiveScript.run_live.
+  Ring.LiveScript.run_live Proto.Script.run_broker.
